@@ -152,6 +152,50 @@ def _check(formulas, timeout_s):
     return r, model, time.time() - t0
 
 
+def _solve_obligation(c, base, feas, feas_inputs, i, ob, timeout_s, conn):
+    from symreal.poly import normalize_eq
+    label, cond, kind, relaxed = ob[:4]
+    pair = ob[4] if len(ob) > 4 else None
+    cs = z3.simplify(cond)
+    if z3.is_true(cs):
+        conn.send(('res', i, dict(kind=kind, label=label, result='trivial', time=0.0)))
+        return
+    conn.send(('start', i))
+    if z3.is_false(cs):
+        # violated iff the path is feasible
+        res = dict(kind=kind, label=label, result='sat' if feas == 'sat' else 'unknown', time=0.0, how='path-feasible')
+        if feas == 'sat':
+            res['inputs'] = feas_inputs
+        conn.send(('res', i, res))
+        return
+    how = 'exact'
+    t0 = time.time()
+    if pair is not None and c.rules:
+        ncond, zero = normalize_eq(c.rules, pair[0], pair[1])
+        if ncond is not None:
+            how = 'exact+nf'
+            cond = ncond
+            if pair[2] is not None and not zero:
+                d = ncond.arg(0)
+                relaxed = z3.And(d <= pair[2], -d <= pair[2])
+    tn = time.time() - t0
+    r, model, dt = _check(base + [z3.Not(cond)], timeout_s)
+    res = dict(kind=kind, label=label, result=r, time=dt + tn, how=how)
+    if r != 'unsat' and relaxed is not None:
+        r2, model2, dt2 = _check(base + [z3.Not(relaxed)], timeout_s)
+        res.update(result=r2, time=dt + dt2 + tn, how='tolerance', exact=r)
+        if r2 == 'sat':
+            model = model2
+        elif r2 == 'unknown' and r == 'sat':
+            # exact claim refuted, tolerance undecided: keep the exact model as a candidate
+            res['result'] = 'sat'
+            res['how'] = 'exact-only'
+        r = res['result']
+    if r == 'sat' and model is not None:
+        res['inputs'] = _model_inputs(c, model)
+    conn.send(('res', i, res))
+
+
 def solve_path(claim, decisions, only, timeout_s, conn):
     """worker body: re-execute one path, discharge its obligations, stream results"""
     c, h, status, info = run_path(claim, decisions)
@@ -167,36 +211,10 @@ def solve_path(claim, decisions, only, timeout_s, conn):
     if feas == 'unsat':
         conn.send(('done',))
         return
-    for i, (label, cond, kind, relaxed) in enumerate(c.oblig):
+    for i, ob in enumerate(c.oblig):
         if only is not None and i not in only:
             continue
-        cs = z3.simplify(cond)
-        if z3.is_true(cs):
-            conn.send(('res', i, dict(kind=kind, label=label, result='trivial', time=0.0)))
-            continue
-        conn.send(('start', i))
-        if z3.is_false(cs):
-            # violated iff the path is feasible
-            res = dict(kind=kind, label=label, result='sat' if feas == 'sat' else 'unknown', time=0.0, how='path-feasible')
-            if feas == 'sat':
-                res['inputs'] = msg.get('inputs')
-            conn.send(('res', i, res))
-            continue
-        r, model, dt = _check(base + [z3.Not(cond)], timeout_s)
-        res = dict(kind=kind, label=label, result=r, time=dt, how='exact')
-        if r != 'unsat' and relaxed is not None:
-            r2, model2, dt2 = _check(base + [z3.Not(relaxed)], timeout_s)
-            res.update(result=r2, time=dt + dt2, how='tolerance', exact=r)
-            if r2 == 'sat':
-                model = model2
-            elif r2 == 'unknown' and r == 'sat':
-                # exact claim refuted, tolerance undecided: keep the exact model as a candidate
-                res['result'] = 'sat'
-                res['how'] = 'exact-only'
-            r = res['result']
-        if r == 'sat' and model is not None:
-            res['inputs'] = _model_inputs(c, model)
-        conn.send(('res', i, res))
+        _solve_obligation(c, base, feas, msg.get('inputs'), i, ob, timeout_s, conn)
     conn.send(('done',))
 
 
@@ -617,31 +635,10 @@ def solve_path_nofeas(claim, decisions, only, timeout_s, conn):
     """re-run after a kill: skip the feasibility query"""
     c, h, status, info = run_path(claim, decisions)
     base = list(c.assumptions) + list(c.path)
-    for i, (label, cond, kind, relaxed) in enumerate(c.oblig):
+    for i, ob in enumerate(c.oblig):
         if i not in only:
             continue
-        cs = z3.simplify(cond)
-        if z3.is_true(cs):
-            conn.send(('res', i, dict(kind=kind, label=label, result='trivial', time=0.0)))
-            continue
-        conn.send(('start', i))
-        if z3.is_false(cs):
-            conn.send(('res', i, dict(kind=kind, label=label, result='unknown', time=0.0, how='path-feasible')))
-            continue
-        r, model, dt = _check(base + [z3.Not(cond)], timeout_s)
-        res = dict(kind=kind, label=label, result=r, time=dt, how='exact')
-        if r != 'unsat' and relaxed is not None:
-            r2, model2, dt2 = _check(base + [z3.Not(relaxed)], timeout_s)
-            res.update(result=r2, time=dt + dt2, how='tolerance', exact=r)
-            if r2 == 'sat':
-                model = model2
-            elif r2 == 'unknown' and r == 'sat':
-                res['result'] = 'sat'
-                res['how'] = 'exact-only'
-            r = res['result']
-        if r == 'sat' and model is not None:
-            res['inputs'] = _model_inputs(c, model)
-        conn.send(('res', i, res))
+        _solve_obligation(c, base, 'unknown', None, i, ob, timeout_s, conn)
     conn.send(('done',))
 
 
